@@ -882,6 +882,9 @@ class Interp(object):
         raise Unsupported('unresolved name %s in %s' % (name, module.name))
 
     def resolve_import(self, mod, nm):
+        h = self.hooks.get('import:%s.%s' % (mod, nm))
+        if h is not None:
+            return h
         if nm in EXC_NAMES:
             return ExcVal(nm)
         if nm in KINDS:
